@@ -10,6 +10,11 @@ CHECKS = {}
 def check(pid, engine, category, technique, text, note, design=None, thorough=True):
     CHECKS[pid] = dict(engine=engine, category=category, technique=technique, text=text, note=note, design=design or ("§5 " + pid), thorough=thorough)
 
+check("C01", "E2 enum", "exploration",
+      "bounded-exhaustive enumeration of program families (binding kind x execution context x use; every non-blocking misuse sequence of the sync primitives up to a length bound; crash regression corpus) in crash-journalled worker processes",
+      "324 binding/context/use programs (top level, method, defer, do-finally, closure, generator, async, nested async, go thread), every single-threaded misuse sequence of length <=3 (thorough 5) over Mutex/RWMutex/WaitGroup/Once/Channel operations that a blocking model says cannot block, and one minimal program per crash found so far run on the real checker+VM; any Go panic, fatal error or dead worker is a violation. Every other check additionally reports host crashes of its own program space under its own property.",
+      "stack exhaustion excluded by construction; narrowing/invalidation family is C02's, std calls C28's, multi-threaded primitives C25's")
+
 check("C06", "E2 enum", "exploration",
       "bounded-exhaustive enumeration of operand pairs x operators x evaluation paths against math/big",
       "Every ordered pair of a boundary Int set (both sides of 2^31..2^128) x every Int operator x 3 Go API families x 4 source forms through the real checker+VM is evaluated and compared with math/big (truncated division), plus division identity, result normalisation/hash/equality against the canonical value and operand immutability. Exhaustive inside the stated alphabet; says nothing about integers outside it.",
